@@ -30,214 +30,13 @@ func main() {
 	}
 }
 
-type liveT struct {
-	s    storex.Schema
-	snap storex.Snap
-	fp   string
-}
-
-type hist struct {
-	base  storex.Base
-	live  []*liveT
-	steps []string // op-line step tokens
-	verd  []string
-	strct []string
-	names []string
-	deepOnly int
-	baseHdr  string
-}
-
-func newHist(b storex.Base) *hist {
-	s := b.Mk().(storex.Schema)
-	h := &hist{base: b}
-	fp := storex.Fingerprint(s, true)
-	h.live = append(h.live, &liveT{s: s, snap: storex.TakeSnap(s), fp: fp})
-	return h
-}
-
-var rebuildSet = map[string]bool{}
-var accessSet = map[string]bool{}
-
-func init() {
-	for _, n := range strings.Fields(`WithRest Extend SafeExtend Merge Pick Omit MustPick MustOmit MustExtend Keyof And Or
-		Array Slice Exclude Extract MustExclude MustExtract Input Output Implement ImplementAsync`) {
-		rebuildSet[n] = true
-	}
-	for _, n := range strings.Fields(`Unwrap Inner Element Elem KeyType ValueType KeySchema ValueSchema Left Right Rest GetInner
-		GetRest GetCatchall Catchall InnerType Options Shape GetUnknownKeys`) {
-		accessSet[n] = true
-	}
-}
-
-func (h *hist) classify(b storex.Base, recv *liveT, method string, variant int, res storex.Schema, rs storex.Snap) (string, int) {
-	if accessSet[method] {
-		for j, l := range h.live {
-			if any(l.s) == any(res) {
-				return "alias", j // the accessor handed out a schema that is already live
-			}
-		}
-		return "access", 0
-	}
-	if any(res) == any(recv.s) {
-		if method == "Meta" {
-			return "metaself", variant
-		}
-		return "self", 0
-	}
-	switch {
-	case method == "And" || method == "Or":
-		return "wrap", 0 // constructor-built composite that holds the receiver as a member
-	case rebuildSet[method]:
-		return "rebuild", 0
-	case (method == "Meta" || method == "Describe") && strings.Contains(fmt.Sprintf("%T", res), "ZodString["):
-		return "copymeta", variant // ZodString.withMeta (also reached through the types embedding *ZodString)
-	case method == "Partial" && strings.Contains(fmt.Sprintf("%T", recv.s), "ZodRecord"):
-		return "bagwrite", 0
-	}
-	k := rs.Len - recv.snap.Len
-	if k < 0 || !strings.HasPrefix(rs.CheckIDs, recv.snap.CheckIDs) {
-		return "refilter", 0
-	}
-	return "derive", k
-}
-
-// shortType is the receiver's schema type without package and type arguments (ZodIntegerTyped, ZodString, …).
-func shortType(x any) string {
-	s := fmt.Sprintf("%T", x)
-	if i := strings.Index(s, "["); i >= 0 {
-		s = s[:i]
-	}
-	if i := strings.LastIndex(s, "."); i >= 0 {
-		s = s[i+1:]
-	}
-	return s
-}
-
-func sameType(a, b any) bool { return fmt.Sprintf("%T", a) == fmt.Sprintf("%T", b) }
-
-// sameFamily: same generic schema type up to its type arguments (Optional() turns ZodString[string] into ZodString[*string]).
-func sameFamily(a, b any) bool {
-	f := func(x any) string {
-		s := fmt.Sprintf("%T", x)
-		if i := strings.Index(s, "["); i >= 0 {
-			s = s[:i]
-		}
-		return s
-	}
-	return f(a) == f(b)
-}
-
-func idx(xs []int) string {
-	ss := make([]string, len(xs))
-	for i, x := range xs {
-		ss[i] = fmt.Sprint(x)
-	}
-	return strings.Join(ss, ",")
-}
-
-// step applies method to live[ri]; returns false when the call is not a chaining call for these arguments.
-func (h *hist) step(ri int, method string, variant int, o *hx.Out) bool {
-	recv := h.live[ri]
-	res, ok, why := storex.Call(recv.s, method, variant)
-	if !ok {
-		o.Count("skipped:" + why)
-		return false
-	}
-	// phase (a): what did the call itself do to the live schemas? (result not yet converted)
-	var changed []int
-	for i, l := range h.live {
-		ns := storex.TakeSnap(l.s)
-		nf := storex.Fingerprint(l.s, true)
-		if ns.Content() == l.snap.Content() && nf != l.fp {
-			// the converter itself is not deterministic for some schemas (Go map order, C12): a document that
-			// merely flips between the values already seen for this very schema is not a change made by the call
-			for try := 0; try < 12 && nf != l.fp; try++ {
-				nf = storex.Fingerprint(l.s, true)
-			}
-			if nf == l.fp {
-				o.Count("nondeterministic-conversion-seen")
-			}
-		}
-		if ns.Content() != l.snap.Content() || nf != l.fp {
-			changed = append(changed, i)
-			if os.Getenv("C08_DEBUG") != "" {
-				fmt.Fprintf(os.Stderr, "CHANGED %s live=%d by %d.%s\n  snap: %q\n     -> %q\n  fp: %s\n   -> %s\n", h.base.Name, i, ri, method,
-					l.snap.Content(), ns.Content(), l.fp, nf)
-			}
-		} else if ns.Deep != l.snap.Deep {
-			h.deepOnly++
-		}
-		l.snap, l.fp = ns, nf
-	}
-	rs := storex.TakeSnap(res)
-	class, k := h.classify(h.base, recv, method, variant, res, rs)
-	fresh := 1
-	if any(res) == any(recv.s) {
-		fresh = 0
-	}
-	var b, a, v []int
-	for i, l := range h.live {
-		if rs.BagPtr != 0 && rs.BagPtr == l.snap.BagPtr {
-			b = append(b, i)
-		}
-		if rs.Cap > 0 && l.snap.Cap > 0 && rs.ChecksPtr == l.snap.ChecksPtr {
-			a = append(a, i)
-		}
-		if rs.ValPtr != 0 && rs.ValPtr == l.snap.ValPtr {
-			v = append(v, i)
-		}
-	}
-	if class == "metaself" {
-		// Meta() on the receiver also shows in composites that embed the receiver's document (And/Or members);
-		// whether it does depends on the member being representable. Only the receiver itself (and its aliases in
-		// the live list) is compared with the model; the propagation is counted.
-		var own []int
-		for _, i := range changed {
-			if any(h.live[i].s) == any(recv.s) {
-				own = append(own, i)
-			} else {
-				o.Count("meta-change-propagated-to-composite")
-			}
-		}
-		changed = own
-	}
-	st := fmt.Sprintf("b%sa%sv%sh%d/%d", idx(b), idx(a), idx(v), rs.Len, rs.Cap)
-	if class == "access" || class == "alias" {
-		st, fresh = "-", 1 // accessors hand out an existing inner schema (possibly the receiver): only "nothing changed" applies
-	}
-	rm := 0 // does the result start with a registry entry? (only some types' withInternals copy the receiver's)
-	if rs.Meta != "" {
-		rm = 1
-	}
-	h.steps = append(h.steps, fmt.Sprintf("%d %s %d %d %d %s %s %d %s", ri, class, k, rs.Len, rs.Cap, rs.BagState, rs.ValState, rm, method+"@"+shortType(recv.s)))
-	h.verd = append(h.verd, fmt.Sprintf("%d:%s", fresh, idx(changed)))
-	h.strct = append(h.strct, st)
-	h.names = append(h.names, fmt.Sprintf("%d.%s/%d", ri, method, variant))
-	o.Count("class:" + class)
-	// phase (b): warm the result up (first conversion) and re-baseline everybody; pollution of relatives by this
-	// conversion is C12's business and only counted here.
-	fp := storex.Fingerprint(res, true)
-	for _, l := range h.live {
-		ns := storex.TakeSnap(l.s)
-		nf := storex.Fingerprint(l.s, true)
-		if ns.Content() != l.snap.Content() || nf != l.fp {
-			o.Count("convert-of-result-changed-a-relative")
-		}
-		l.snap, l.fp = ns, nf
-	}
-	h.live = append(h.live, &liveT{s: res, snap: storex.TakeSnap(res), fp: fp})
-	return true
-}
-
-func (h *hist) emit(o *hx.Out, tag string) {
-	if len(h.steps) == 0 {
+func emit(h *storex.Hist, o *hx.Out, tag string) {
+	if len(h.Steps) == 0 {
 		return
 	}
-	b0 := h.live[0]
-	_ = b0
-	op := fmt.Sprintf("c08 %s %s | %s #%s %s", h.base.Name, h.baseHdr, strings.Join(h.steps, " | "), tag, strings.Join(h.names, " "))
-	o.Emit(op, "V:"+strings.Join(h.verd, ";")+" S:"+strings.Join(h.strct, ";"))
-	if h.deepOnly > 0 {
+	op := fmt.Sprintf("c08 %s %s | %s #%s %s", h.Base.Name, h.BaseHdr, strings.Join(h.Steps, " | "), tag, strings.Join(h.Names, " "))
+	o.Emit(op, "V:"+strings.Join(h.Verd, ";")+" S:"+strings.Join(h.Strct, ";"))
+	if h.DeepOnly > 0 {
 		o.Count("deep-hash-only-change")
 	}
 }
@@ -265,50 +64,50 @@ func run(c hx.Config) error {
 			for _, m := range methods {
 				for variant := 0; variant < 2; variant++ {
 					// A: directly on the fresh base, sibling fan-out, then on the result
-					h := newHistH(b)
-					if h.step(0, m, variant, o) {
-						h.step(0, m, variant+1, o)
-						h.step(0, hx.Pick(rng, methods), rng.Intn(3), o)
-						last := len(h.live) - 1
-						h.step(1, hx.Pick(rng, methods), rng.Intn(3), o)
-						h.step(last, m, variant, o)
-						h.emit(o, "A")
+					h := storex.NewHist(b, true)
+					if h.Step(0, m, variant, o) {
+						h.Step(0, m, variant+1, o)
+						h.Step(0, hx.Pick(rng, methods), rng.Intn(3), o)
+						last := len(h.Live) - 1
+						h.Step(1, hx.Pick(rng, methods), rng.Intn(3), o)
+						h.Step(last, m, variant, o)
+						emit(h, o, "A")
 					}
 					// B: after a random prefix
-					h = newHistH(b)
+					h = storex.NewHist(b, true)
 					for i := 0; i < 2+rng.Intn(3); i++ {
-						h.step(rng.Intn(len(h.live)), hx.Pick(rng, methods), rng.Intn(3), o)
+						h.Step(rng.Intn(len(h.Live)), hx.Pick(rng, methods), rng.Intn(3), o)
 					}
-					ri := rng.Intn(len(h.live))
-					if h.step(ri, m, variant, o) {
-						h.step(ri, hx.Pick(rng, methods), rng.Intn(3), o)
-						h.step(rng.Intn(len(h.live)), hx.Pick(rng, methods), rng.Intn(3), o)
+					ri := rng.Intn(len(h.Live))
+					if h.Step(ri, m, variant, o) {
+						h.Step(ri, hx.Pick(rng, methods), rng.Intn(3), o)
+						h.Step(rng.Intn(len(h.Live)), hx.Pick(rng, methods), rng.Intn(3), o)
 						if c.Thorough() {
 							for i := 0; i < 6; i++ {
-								h.step(rng.Intn(len(h.live)), hx.Pick(rng, methods), rng.Intn(3), o)
+								h.Step(rng.Intn(len(h.Live)), hx.Pick(rng, methods), rng.Intn(3), o)
 							}
 						}
-						h.emit(o, "B")
+						emit(h, o, "B")
 					}
 				}
 			}
 			// C: long check chains crossing capacities, siblings at every boundary
 			for _, m := range methods {
-				h := newHistH(b)
-				if !h.step(0, m, 0, o) || !strings.HasPrefix(h.steps[0], "0 derive 1 ") {
+				h := storex.NewHist(b, true)
+				if !h.Step(0, m, 0, o) || !strings.HasPrefix(h.Steps[0], "0 derive 1 ") {
 					continue
 				}
 				cur := 1
 				for n := 2; n <= 17; n++ {
 					if n == 2 || n == 3 || n == 5 || n == 9 || n == 17 || n == 4 {
-						h.step(cur, m, n, o) // sibling that is not continued
+						h.Step(cur, m, n, o) // sibling that is not continued
 					}
-					if !h.step(cur, m, n+1, o) {
+					if !h.Step(cur, m, n+1, o) {
 						break
 					}
-					cur = len(h.live) - 1
+					cur = len(h.Live) - 1
 				}
-				h.emit(o, "C")
+				emit(h, o, "C")
 				if !c.Thorough() && rng.Intn(3) != 0 {
 					break // quick tier: one or two chain methods per base
 				}
@@ -316,11 +115,4 @@ func run(c hx.Config) error {
 		}
 	}
 	return o.Close(map[string]any{"bases": len(bases), "type_methods": len(methodsSeen)})
-}
-
-func newHistH(b storex.Base) *hist {
-	h := newHist(b)
-	s := h.live[0].snap
-	h.baseHdr = fmt.Sprintf("%s %s %d %d", s.BagState, s.ValState, s.Len, s.Cap)
-	return h
 }
